@@ -80,6 +80,15 @@ CHECKS["C11"] = dict(
     note=_EXEC_NOTE, technique="TLA+ reference executor model-checked with TLC; TLC-generated vectors replayed into the Go code",
     design="3/C11")
 
+CHECKS["C03"] = dict(
+    text="spec/props/C03.tla: skeletons interleaving literal chunks (multi-byte UTF-8, LF, CRLF, lone { } % #, closing delimiters) "
+         "with prints, comments, verbatim sections and bodies of if/else/for/block/set/filter/macro, each in canonical and tight "
+         "spelling. Expected output is defined by structural recursion on the skeleton; TLC checks Faithful (executor output = "
+         "structural expectation) for every skeleton and prints vectors; replay compares the bytes the writer received.",
+    note=_EXEC_NOTE + " Region: a literal run directly followed by a construct does not end in '{'.",
+    technique="TLA+ reference executor model-checked with TLC; TLC-generated vectors replayed into the Go code",
+    design="3/C03")
+
 NOT_YET = {}
 
 props = [json.loads(l)["id"] for l in open(os.path.join(VERIF, "properties.jsonl"))]
